@@ -217,8 +217,12 @@ fn c12_merge_stats_split_invariant() {
 // through the int->f64 conversion leaves a formula the solver decides.
 
 fn tiny_int() -> (i32, f64) {
+  ranged_int(-4, 3)
+}
+
+fn ranged_int(lo: i32, hi: i32) -> (i32, f64) {
   let i: i32 = kani::any();
-  kani::assume(i >= -4 && i <= 3);
+  kani::assume(i >= lo && i <= hi);
   (i, i as f64)
 }
 
@@ -312,4 +316,32 @@ fn c12_quantile_merge_split_invariant() {
   std::mem::forget(ab);
   std::mem::forget(ea);
   std::mem::forget(ae);
+}
+
+
+//@ props: C12
+//@ tier: thorough
+//@ timeout: 2700
+//@ funcs: query::aggs::merge_stats (the m2 / variance term)
+//@ symbolic: four integer field values in -16..=15 (5 bits); two segments of two documents each, merged in both orders
+//@ bounds: 4 values (5 bits each), segmentation 2|2
+//@ oracle: as c12_merge_stats_variance_term_exact
+//@ outside: segment sizes that are not powers of two, larger values
+#[kani::proof]
+#[kani::unwind(4)]
+fn c12_merge_stats_variance_term_exact_5bit() {
+  let (i0, x0) = ranged_int(-16, 15);
+  let (i1, x1) = ranged_int(-16, 15);
+  let (i2, x2) = ranged_int(-16, 15);
+  let (i3, x3) = ranged_int(-16, 15);
+  let a = merge_stats(merge_stats(StatsState::default(), single(x0)), single(x1));
+  let b = merge_stats(merge_stats(StatsState::default(), single(x2)), single(x3));
+  let sum = i0 + i1 + i2 + i3;
+  let sq = i0 * i0 + i1 * i1 + i2 * i2 + i3 * i3;
+  let want4 = (4 * sq - sum * sum) as f64;
+  let ab = merge_stats(a, b);
+  assert!(ab.m2 * 4.0 == want4, "C12: the merged sum of squared deviations (variance / std deviation of extended_stats) differs from the single-segment value");
+  let ba = merge_stats(b, a);
+  assert!(ba.m2 * 4.0 == want4, "C12: the merged sum of squared deviations depends on the merge order");
+  kani::cover!(i0 == 15 && i1 == -16, "extreme values in one segment");
 }
